@@ -4998,7 +4998,7 @@ class HCI_LE_Set_Extended_Advertising_Parameters_Command(
         metadata=metadata(Address.parse_address_preceded_by_type)
     )
     advertising_filter_policy: int = field(metadata=metadata(1))
-    advertising_tx_power: int = field(metadata=metadata(1))
+    advertising_tx_power: int = field(metadata=metadata(-1))
     primary_advertising_phy: int = field(metadata=Phy.type_metadata(1))
     secondary_advertising_max_skip: int = field(metadata=metadata(1))
     secondary_advertising_phy: int = field(metadata=Phy.type_metadata(1))
@@ -5537,8 +5537,8 @@ class HCI_LE_Periodic_Advertising_Terminate_Sync_Command(
 # -----------------------------------------------------------------------------
 @dataclasses.dataclass
 class HCI_LE_Read_Transmit_Power_ReturnParameters(HCI_StatusReturnParameters):
-    min_tx_power: int = field(metadata=metadata(1))
-    max_tx_power: int = field(metadata=metadata(1))
+    min_tx_power: int = field(metadata=metadata(-1))
+    max_tx_power: int = field(metadata=metadata(-1))
 
 
 @HCI_SyncCommand.sync_command(HCI_LE_Read_Transmit_Power_ReturnParameters)
@@ -6036,7 +6036,7 @@ class HCI_LE_CS_Set_Default_Settings_Command(
     connection_handle: int = field(metadata=metadata(2))
     role_enable: int = field(metadata=metadata(CS_ROLE_MASK_SPEC))
     cs_sync_antenna_selection: int = field(metadata=metadata(1))
-    max_tx_power: int = field(metadata=metadata(1))
+    max_tx_power: int = field(metadata=metadata(-1))
 
 
 # -----------------------------------------------------------------------------
@@ -6145,7 +6145,7 @@ class HCI_LE_CS_Set_Procedure_Parameters_Command(
     max_subevent_len: int = field(metadata=metadata(3))
     tone_antenna_config_selection: int = field(metadata=metadata(1))
     phy: int = field(metadata=metadata(1))
-    tx_power_delta: int = field(metadata=metadata(1))
+    tx_power_delta: int = field(metadata=metadata(-1))
     preferred_peer_antenna: int = field(metadata=metadata(1))
     snr_control_initiator: int = field(metadata=metadata(CS_SNR_SPEC))
     snr_control_reflector: int = field(metadata=metadata(CS_SNR_SPEC))
@@ -6854,7 +6854,7 @@ class HCI_LE_Extended_Advertising_Report_Event(HCI_LE_Meta_Event):
         primary_phy: int = field(metadata=metadata(Phy.type_spec(1)))
         secondary_phy: int = field(metadata=metadata(Phy.type_spec(1)))
         advertising_sid: int = field(metadata=metadata(1))
-        tx_power: int = field(metadata=metadata(1))
+        tx_power: int = field(metadata=metadata(-1))
         rssi: int = field(metadata=metadata(-1))
         periodic_advertising_interval: int = field(metadata=metadata(2))
         direct_address_type: int = field(metadata=metadata(Address.ADDRESS_TYPE_SPEC))
